@@ -368,10 +368,44 @@ func runC20(r *Run, stratum string) *Violation {
 		ss.errAt = 1 + g.Choose("transient-at", 4+3*len(ds.Keys))
 		ss.errText = []string{"BUSY Redis is busy running a script. You can only call SCRIPT KILL or SHUTDOWN NOSAVE.", "LOADING Redis is loading the dataset in memory", "TRYAGAIN Multiple keys request during rehashing of slot"}[g.Choose("transient-kind", 3)]
 	}
+	// an interrupted first attempt: the target drops the replay's connections at a drawn step and stays reachable; the
+	// round fails and the tool replays the same snapshot again on the same output object. What the policies promise about
+	// keys that were on the target BEFORE the first attempt holds for the second attempt too (keys the first attempt wrote
+	// itself are another matter and are not judged)
+	twice := !transient && !cfg.Bisync && raced == nil && ss.onStep == nil && (policy == "ignore" || policy == "error") && g.Choose("interrupted-first-attempt", 4) == 0
+	severAt, stepNo, severed := 0, 0, false
+	if twice {
+		severAt = 1 + g.Choose("sever-at", 6+4*len(ds.Keys))
+		ss.onStep = func() bool {
+			stepNo++
+			if stepNo == severAt && !severed {
+				severed = true
+				r.W.Fault("target_drops_connections")
+				r.Logf("the target drops the replay's connections")
+				for _, s := range ss.srv.Sessions {
+					if !s.Dead {
+						ss.srv.KillSession(s, 0)
+					}
+				}
+				r.Settle()
+			}
+			return false
+		}
+	}
 	restore := ss.start()
 	defer restore()
 	finished := ss.run()
 	done, err := ss.isDone()
+	secondAttempt := false
+	if twice && finished && done && err != nil && severed {
+		ss.onStep = nil
+		ss.drainPending(10000)
+		ss.again()
+		secondAttempt = true
+		simrt.Probe("c20_second_attempt_on_the_same_output")
+		finished = ss.run()
+		done, err = ss.isDone()
+	}
 	tEnd := time.Now()
 	elapsed := tEnd.Sub(ss.t0)
 	if !finished {
@@ -486,6 +520,19 @@ func runC20(r *Run, stratum string) *Violation {
 	}
 	switch {
 	case v != nil:
+	case done && secondAttempt:
+		// (a first attempt that was not interrupted after all is judged as any other run, below)
+		if policy == "ignore" || policy == "error" {
+			for _, pk := range preList {
+				if pk.snap != nil && v == nil {
+					v = untouched(pk, policy)
+				}
+			}
+		}
+		if v == nil && policy == "error" && nSnapPre > 0 && err == nil {
+			v = ss.violation("C20.error_no_error", "error policy: the repeated replay reported success although a snapshot key pre-existed on the target",
+				"policy error, %d pre-existing snapshot key(s) (%s): the first attempt was interrupted by a connection loss, the second one on the same output object returned nil", nSnapPre, strings.Join(desc, "; "))
+		}
 	case done && err != nil && ss.errHit:
 		// the replay gave up at the refused request (the full sync will be repeated): what the policies promise about keys
 		// that were there before holds for a replay that stops half way too
